@@ -16,6 +16,17 @@ def work(item, opts):
             if k in item:
                 case[k] = item[k]
     delay = item.get("delay") if isinstance(item, dict) else None
+    utils = bool(opts.get("utils"))
     obs = run.run_case(case, cpu_budget=opts.get("cpu_budget", 120.0), delay=delay,
-                       workdir=os.environ.get("PVMON_WORKDIR"))
+                       workdir=os.environ.get("PVMON_WORKDIR"), keep_result=utils,
+                       record_args=bool(opts.get("record_args")))
+    if utils:
+        result = obs.pop("_result", None)
+        for k in ("_mon", "_log", "_opt"):
+            obs.pop(k, None)
+        if result is not None and obs["outcome"] == "ok":
+            import random
+            from .props import c15
+            rng = random.Random(f"utils/{opts.get('seed', 0)}/{case.get('i')}")
+            obs["stats"]["utils_judged"] = c15.utils_oracle(obs, result, case["spec"].get("minmax", "min"), rng)
     return obs
